@@ -43,4 +43,6 @@ def generate_test_code(spec: model.LSPModel, test_path: pathlib.Path) -> str:
         # splicing at -1 would add the block again on every run.
         return
     code[start_index:end_index] = lines
-    test_path.write_text("\n".join(code), encoding="utf-8")
+    # (with the final newline: `splitlines` drops one, so that blank lines at the
+    # end of the file would otherwise disappear one per run)
+    test_path.write_text("\n".join(code) + "\n", encoding="utf-8")
